@@ -470,7 +470,7 @@ def run(ctx):
         # expected from the live explicit outcomes, by the property itself
         first = None
         for f in order:
-            if exp[f]["kind"] in ("ok", "none") or exp[f]["kind"].startswith("escape:"):
+            if exp[f]["kind"] == "ok" or exp[f]["kind"].startswith("escape:"):
                 first = f
                 break
         for en, o in ents.items():
@@ -533,17 +533,26 @@ def run(ctx):
                 viol("detection failed on a text written by the %s writer (%s, file name %r): %s" % (wf, en, h, o.get("msg", "")[:120]),
                      "auto:fails-on-written:%s:%s" % (wf, o["kind"]))
             elif o["kind"] == "StructureFormatError":
-                if first is not None and exp[first]["kind"] == "ok":
-                    viol("detection failed although the %s parser accepts the text (%s, file name %r)" % (first, en, h),
-                         "auto:fails-although-accepted:%s" % first)
-                elif first is not None and exp[first]["kind"] == "none":
-                    none_stop += 1
-                    viol("detection stops at the %s parser, which returned None, and reports failure without asking the remaining parsers "
-                         "(%s, file name %r)" % (first, en, h), "auto:none-result-stops-detection:%s" % first)
-                else:
-                    missing = [f for f in order if exp[f]["kind"] == "StructureFormatError"
-                               and not re.search(r"(^|\n)%s: " % re.escape(f), o.get("msg", ""))]
-                    if missing:
+                # a parser that returns None has not accepted the text: the first ACCEPTING parser decides
+                acc = next((f for f in order if exp[f]["kind"] == "ok" or exp[f]["kind"].startswith("escape:")), None)
+                missing = [f for f in order if exp[f]["kind"] == "StructureFormatError"
+                           and not re.search(r"(^|\n)%s: " % re.escape(f), o.get("msg", ""))]
+                stop_at = acc if acc is not None else (missing[0] if missing else None)
+                nones = [f for f in (order[:order.index(stop_at)] if stop_at else []) if exp[f]["kind"] == "none"]
+                if acc is not None and exp[acc]["kind"] == "ok":
+                    if nones:
+                        none_stop += 1
+                        viol("detection stops at the %s parser, which returned None, and reports failure although the %s parser accepts the text "
+                             "(%s, file name %r)" % (nones[0], acc, en, h), "auto:none-result-stops-detection:%s" % nones[0])
+                    else:
+                        viol("detection failed although the %s parser accepts the text (%s, file name %r)" % (acc, en, h),
+                             "auto:fails-although-accepted:%s" % acc)
+                elif missing:
+                    if nones:
+                        none_stop += 1
+                        viol("detection stops at the %s parser, which returned None, and reports failure without the complaints of %s "
+                             "(%s, file name %r)" % (nones[0], missing, en, h), "auto:none-result-stops-detection:%s" % nones[0])
+                    else:
                         viol("the failure message of detection does not list the complaint of %s (%s, file name %r)" % (missing, en, h),
                              "auto:complaint-missing")
             elif o["kind"] == "none":
